@@ -733,6 +733,25 @@ def eqrows_case(rng):
     hierarchy, built in memory or read back (lazily parsed, nothing accessed before the comparison)."""
     flav = rng.choice(["t", "b"])
     x = rng.choice(PLAIN)
+    if rng.random() < 0.35:
+        # identical (or nearly identical) data, masks that are absent / explicit / different: the masks count
+        n = rng.randint(1, 4)
+        a = [rng.choice(PLAIN) for _ in range(n)]
+        b = list(a)
+        if rng.random() < 0.15:
+            b[rng.randrange(n)] += "x"
+
+        def some_mask():
+            m = [rng.choice([0, 0, 1, 2]) for _ in range(n)]
+            if not any(m):
+                m[rng.randrange(n)] = rng.choice([1, 2])
+            return "".join(map(str, m))
+        ma = rng.choice(["-", some_mask()])
+        mb = rng.choice(["-", ma, some_mask()])
+        if rng.random() < 0.5:
+            ma, mb = mb, ma
+        ops = [f"eqrows {flav} {level} f f {enc_list(a)} {enc_list(b)} {ma} {mb}" for level in EQ_LEVELS[1:]]
+        return {"kind": "eqrows/" + flav, "ops": ops}
     r = rng.random()
     if r < 0.3:
         a, b = [x], [x] * rng.randint(2, 4)                  # one row vs n copies of that row
@@ -1020,10 +1039,19 @@ def _col_roundtrip(flav, col, data):
     return [(k, [str(x) for x in back[k].as_array(str)], _mask_str(back[k])) for k in back]
 
 
-def _eqrows_obj(flav, level, state, vals):
+def _eqrows_obj(flav, level, state, vals, mask="-"):
     import msgpack
     import numpy as np
     import biotite.structure.io.pdbx as pdbx
+    if mask != "-":
+        m = np.array([int(c) for c in mask], dtype=np.uint8)
+        col = (pdbx.CIFColumn(pdbx.CIFData(list(vals)), m) if flav == "t"
+               else pdbx.BinaryCIFColumn(np.array(list(vals)), m))
+        if flav == "t":
+            f = pdbx.CIFFile({"b": pdbx.CIFBlock({"c": pdbx.CIFCategory({"v": col})})})
+        else:
+            f = pdbx.BinaryCIFFile({"b": pdbx.BinaryCIFBlock({"c": pdbx.BinaryCIFCategory({"v": col})})})
+        return {"file": f, "block": f["b"], "category": f["b"]["c"], "column": f["b"]["c"]["v"]}[level]
     if flav == "t":
         f = pdbx.CIFFile({"b": pdbx.CIFBlock({"c": pdbx.CIFCategory({"v": pdbx.CIFColumn(list(vals))})})})
         if state == "p":
@@ -1048,8 +1076,9 @@ def _eqrows_obj(flav, level, state, vals):
 
 
 def _eqrows_eval(w):
-    a = _eqrows_obj(w[1], w[2], w[3], dec_list(w[5]))
-    b = _eqrows_obj(w[1], w[2], w[4], dec_list(w[6]))
+    ma, mb = (w[7], w[8]) if len(w) > 7 else ("-", "-")
+    a = _eqrows_obj(w[1], w[2], w[3], dec_list(w[5]), ma)
+    b = _eqrows_obj(w[1], w[2], w[4], dec_list(w[6]), mb)
     r = a == b
     if not isinstance(r, (bool,)) and type(r).__name__ != "bool_":
         return "NOT-A-BOOL:" + type(r).__name__
@@ -1521,6 +1550,20 @@ def _eqrows_oracle(case):
             got = _eqrows_eval(w)
         except Exception as e:  # noqa: BLE001
             got = type(e).__name__
+        if len(w) > 7:
+            # with masks: the tables are what as_array() shows
+            def shown(vals, mask):
+                return vals if mask == "-" else [v if c == "0" else "." if c == "1" else "?" for v, c in zip(vals, mask)]
+            ta, tb = shown(dec_list(w[5]), w[7]), shown(dec_list(w[6]), w[8])
+            flav = "text" if w[1] == "t" else "binary"
+            if ta != tb and got is not False:
+                return [(f"C06/container/{flav}/eq-mask",
+                         f"{w[2]} level: data {dec_list(w[5])} mask {w[7]} == data {dec_list(w[6])} mask {w[8]} gave {got!r}, "
+                         f"but the tables are {ta} and {tb}")]
+            if exp and w[7] == w[8] and got is not True:
+                return [(f"C06/container/{flav}/eq-mask",
+                         f"{w[2]} level: identical data {dec_list(w[5])} and identical masks {w[7]} gave {got!r}")]
+            continue     # same table but different hidden data / explicit all-present mask: the property is silent
         if got != exp:
             if w[1] == "b" and w[3] != w[4] and got is False and exp is True:
                 return [("C06/container/binary/eq-unserialised-encoding",
